@@ -24,6 +24,8 @@ through unchanged.
 Added while testing against seeded changes: Also (K8 by abstract evaluation): HunkLine.get_str terminates every line
 (unterminated contents carry their own marker); unified_diff_bytes' header is '@@ -<i1+1>,<len> +<j1+1>,<len> @@' for
 a grid of ranges including empty ones.
+Third round: unterminated-line-flagged — the loop of internal_diff that writes the produced lines writes the no-newline marker for any
+line without a newline (or the generator has no plain `yield prefix + line` left and carries the marker itself).
 Does not decide: that diff followed by patch is the identity (patiencediff and the Rust parser are outside this rule).
 """
 CLASSES = {"ContextLine": b" ", "InsertLine": b"+", "RemoveLine": b"-"}
@@ -162,8 +164,28 @@ def run(ctx):
         raise AnalysisError(f"{DF}:unified_diff_bytes: header expression not evaluable: {e_}")
     ctx.fact(n_rows)
     ctx.check("header-positions", f"{DF}:unified_diff_bytes", not bad, f"the hunk header is '@@ -<i1+1>,<len> +<j1+1>,<len> @@' for all {n_rows} tabled ranges, empty ones included (iter_patched_from_hunks copies lines while line_no < orig_pos: an insertion is placed after orig_pos-1 lines)", construct=str(bad[:3]), message=f"the writer anchors ranges differently from what the patcher assumes, e.g. (i1, i2, j1, j2, header) = {bad[:2]}: a pure insertion hunk that is not at the top of the file is applied one line too early, without any conflict")
+    # ---- an unterminated last line is flagged whatever kind of hunk line carries it -----------------------------------
+    fid = repo.func(DF, "internal_diff")
+    fud = repo.func(DF, "unified_diff_bytes")
+    MARK = b"No newline at end of file"
+
+    def _has_marker(node):
+        return any(isinstance(n_, ast.Constant) and isinstance(n_.value, bytes) and MARK in n_.value for n_ in ast.walk(node)) or any(isinstance(n_, ast.Name) and "NEWLINE" in n_.id.upper() for n_ in ast.walk(node))
+
+    # form A: the loop that writes every produced line also writes the marker for any line without a newline
+    form_a = False
+    for lp in walk_own(fid):
+        if isinstance(lp, ast.For) and any(call_attr(c) == "write" and any(norm(a_) == norm(lp.target) for a_ in c.args) for c in calls_in(lp)):
+            guards = [i_ for i_ in lp.body if isinstance(i_, ast.If) and "endswith" in norm(i_.test) and norm(lp.target) in norm(i_.test)]
+            form_a = any(_has_marker(i_) for i_ in guards)
+    # form B: every hunk line the generator yields (context, removed, added) goes through a marker-aware site
+    ylines = [y for y in ast.walk(fud) if isinstance(y, ast.Yield) and isinstance(y.value, ast.BinOp) and isinstance(y.value.left, ast.Constant) and y.value.left.value in (b" ", b"-", b"+")]
+    kinds_plain = sorted({y.value.left.value for y in ylines})
+    form_b = not ylines and _has_marker(fud)
+    ctx.check("unterminated-line-flagged", f"{DF}:internal_diff/unified_diff_bytes", form_a or form_b, "the '\\\\ No newline at end of file' marker follows any written line that lacks its newline — context, removed and added lines alike", construct=f"write loop marks every line: {form_a}; plain yields without marker for {kinds_plain}", message=f"an unterminated last line is no longer flagged for every kind of hunk line (plain yields without the marker for {kinds_plain}): when both texts end in the same unterminated line and a change lies within the context, the diff ends in a context line without marker and terminator, and applying it back to the text it was made from raises a conflict")
 
 MUTANTS = [
+    Mutant("no-newline marker dropped from the write loop", "breezy/diff.py", '        to_file.write(line)\n        if not line.endswith(b"\\n"):\n            to_file.write(b"\\n\\\\ No newline at end of file\\n")\n', '        to_file.write(line)\n', expect="unterminated-line-flagged"),
     Mutant("leading lines copied with islice", PF, "        while line_no < hunk.orig_pos:\n            orig_line = next(orig_lines)\n            yield orig_line\n            line_no += 1\n", "        from itertools import islice\n\n        for orig_line in islice(orig_lines, hunk.orig_pos - line_no):\n            yield orig_line\n            line_no += 1\n", expect="short-text-detected"),
     Mutant("no-newline marker only for the tail of a hunk", PF, "        terminator = b\"\\n\" + NO_NL if not self.contents.endswith(b\"\\n\") else b\"\"\n        return leadchar + self.contents + terminator", "        return leadchar + self.contents", expect="line-self-terminating"),
     Mutant("empty ranges anchored at the previous line", "breezy/diff.py", "(i1 + 1, i2 - i1, j1 + 1, j2 - j1, lineterm)", "(i1 + 1 if i2 > i1 else i1, i2 - i1, j1 + 1 if j2 > j1 else j1, j2 - j1, lineterm)", expect="header-positions"),
